@@ -54,6 +54,16 @@ func (s *echoSrv) Echo(ctx context.Context, req *egrpc.EchoRequest) (*egrpc.Echo
 	return &egrpc.EchoReply{Reply: "ok " + req.Text}, nil
 }
 
+// fwdSrv is a forwarding service: it calls the Echoer behind it with a PLAIN gRPC client and
+// returns whatever error it gets, verbatim (a status error that carries the origin's details).
+type fwdSrv struct{}
+
+func (fwdSrv) Echo(ctx context.Context, req *egrpc.EchoRequest) (*egrpc.EchoReply, error) {
+	return c20raw.Echo(ctx, req)
+}
+
+var c20fwd egrpc.EchoerClient // intercepting client of the forwarding service
+
 var (
 	c20once   sync.Once
 	c20srv    *echoSrv
@@ -80,6 +90,18 @@ func c20setup() {
 	c20client, c20err = dial(grpc.WithUnaryInterceptor(middleware.UnaryClientInterceptor))
 	if c20err == nil {
 		c20raw, c20err = dial()
+	}
+	if c20err == nil {
+		lis2 := memlistener.NewMemoryListener()
+		gs2 := grpc.NewServer(grpc.UnaryInterceptor(middleware.UnaryServerInterceptor), grpc.MaxHeaderListSize(64<<20))
+		egrpc.RegisterEchoerServer(gs2, fwdSrv{})
+		go gs2.Serve(lis2)
+		var cc *grpc.ClientConn
+		cc, c20err = grpc.Dial("passthrough:///mem2", grpc.WithContextDialer(func(context.Context, string) (net.Conn, error) { return lis2.Dial("", "") }),
+			grpc.WithTransportCredentials(insecure.NewCredentials()), grpc.WithMaxHeaderListSize(64<<20), grpc.WithUnaryInterceptor(middleware.UnaryClientInterceptor))
+		if c20err == nil {
+			c20fwd = egrpc.NewEchoerClient(cc)
+		}
 	}
 }
 
@@ -193,6 +215,28 @@ func runC20(c *core.Ctx) {
 	}
 	if !errors.Is(got, e) {
 		c.Violate("is-origin", "the received error is not recognized as the handler's error", t.String())
+	}
+	// the same error relayed by a forwarding service (server interceptor -> plain client -> server
+	// interceptor): a status error passes through the second interceptor unchanged, so the
+	// intercepting client at the far end receives what the one next to the origin receives
+	if c.Case%4 == 1 {
+		_, fwd := c20fwd.Echo(ctx, &egrpc.EchoRequest{Text: key})
+		c.Count("forwarded-rpcs", 1)
+		if fwd == nil {
+			c.Violate("forwarded/nil", "a forwarded error arrives as nil", t.String())
+		} else if p := core.Try(func() {
+			fobs := obs.Full(fwd)
+			if diff := obs.DiffRec(gobs, fobs, nil); len(diff) > 0 {
+				k := diff[0]
+				c.Violate("forwarded/"+recKeyClass(k), "the error received through a forwarding service differs from the one received next to the origin",
+					fmt.Sprintf("%s\nfield %s:\n near: %s\n far:  %s", t, k, trimS(gobs[k], 1200), trimS(fobs[k], 1200)))
+			}
+			if a, b := isAnswers(got, refs), isAnswers(fwd, refs); a != b {
+				c.Violate("forwarded/is", "identity (Is) of the forwarded error differs", fmt.Sprintf("%s\n%s\n%s", t, a, b))
+			}
+		}); p != nil {
+			c.Violate("panic/forwarded", "observation of the forwarded error panicked", fmt.Sprintf("%s\n%v", t, p))
+		}
 	}
 	c.Sample(sample(t, map[string]interface{}{"raw_code": st.Code().String(), "fields_compared": len(dobs)}))
 }
